@@ -47,6 +47,7 @@ func (q Req) String() string { return q.Method + " " + q.Path }
 var Kinds = []Req{
 	{"GET", "/a"}, {"GET", "/b"}, {"GET", "/u/1"}, {"GET", "/u/2"}, {"GET", "/k/y"},
 	{"GET", "/zz/q"}, {"POST", "/a"}, {"HEAD", "/u/1"}, {"POST", "/u/1"}, {"GET", "/g/s"}, {"POST", "/k/y"}, {"GET", "/cp/7"},
+	{"GET", "/redir"},
 }
 
 // kept holds, per request, the Copy() of the context its handler kept beyond the request
@@ -74,6 +75,12 @@ func main(tag string) rux.HandlerFunc {
 			ps = append(ps, k+"="+v)
 		}
 		sort.Strings(ps)
+		if tag == "U" {
+			// this route answers through the JSON response helper (pkg/render is instrumented as well)
+			c.JSON(200, rux.M{"route": tag, "params": strings.Join(ps, ","), "method": c.Req.Method, "path": c.Req.URL.Path})
+			Yield()
+			return
+		}
 		c.WriteString("[" + tag + " " + strings.Join(ps, ",") + " " + c.Req.Method + " " + c.Req.URL.Path + "]")
 		Yield()
 	}
